@@ -153,6 +153,100 @@ Proof. vm_compute. split; reflexivity. Qed.
       - unknown key handle: error, no signature.
     ------------------------------------------------------------------------------------------ *)
 
+(** *** ceremony level: [<Authenticator as U2fApi>::{register, authenticate}] (model Auth/U2f.v, proofs
+    Auth/U2fFacts.v).  Imported here, after the wire-level statements, so that [Ok]/[Err] above are the
+    wire model's and below the ceremony model's. *)
+From PK Require Import Auth.U2fFacts.
+
+(** a successful registration made exactly three calls: key generation, a signature with that private
+    key over 0x00 || application || challenge || key handle || 0x04 || x || y, and one save of a
+    credential for base64url(application) and the key handle holding that private key with counter 0 *)
+Theorem c17_register_ceremony : forall app chal h script tr resp,
+  interp (u2f_register app chal h) script = (tr, Some (Ok resp)) ->
+  exists d x y sg u,
+    tr = [ (EKeyGen, AKey d x y);
+           (ESign d ([0] ++ app ++ chal ++ h ++ ([4] ++ x ++ y)), ABytes sg);
+           (ESave (u2f_passkey app h d x y) {| u_id := h; u_name := None; u_display := None |}
+                  {| rp_id := u2f_rp_id app; rp_name := None |} U2F_OPTIONS, AUnit (Ok u)) ]
+    /\ resp = RegResp (PubKey x y) h [] sg.
+Proof. exact u2f_register_ok. Qed.
+
+Theorem c17_register_store_error_is_reported : forall app chal h script tr res e p u rp o,
+  interp (u2f_register app chal h) script = (tr, Some res) ->
+  In (ESave p u rp o, AUnit (Err e)) tr -> res = Err U2F_Other.
+Proof. exact u2f_register_save_error. Qed.
+
+(** on a store that honours saves, a successful registration leaves exactly that credential under the
+    key handle and application (and the ids stay unique, so this applies along any history) *)
+Theorem c17_register_stores_credential : forall app chal h st dsc script st' tr resp,
+  unique_ids st ->
+  exec (u2f_register app chal h) st dsc script = (st', tr, Some (Ok resp)) ->
+  exists d sg,
+    st' = put st (u2f_passkey app h d (pk_x (rs_public_key resp)) (pk_y (rs_public_key resp)))
+    /\ resp = RegResp (rs_public_key resp) h [] sg
+    /\ In (ESign d (u2f_register_target app chal h (pk_x (rs_public_key resp)) (pk_y (rs_public_key resp))), ABytes sg) tr
+    /\ ref_find st' (Some [h]) (u2f_rp_id app)
+       = Ok [u2f_passkey app h d (pk_x (rs_public_key resp)) (pk_y (rs_public_key resp))]
+    /\ unique_ids st'.
+Proof. exact u2f_register_stores. Qed.
+
+(** a successful authentication looked the key handle up under base64url(application), used the first
+    credential answered and signed application || presence || be32 counter || challenge with its key *)
+Theorem c17_authenticate_ceremony : forall app chal kh ctr pres script tr resp,
+  interp (u2f_authenticate app chal kh ctr pres) script = (tr, Some (Ok resp)) ->
+  exists cred rest d sg,
+    tr = [ (EFind (Some [kh]) (u2f_rp_id app), AFind (Ok (cred :: rest)));
+           (ESign d (app ++ [pres] ++ be32 ctr ++ chal), ABytes sg) ]
+    /\ private_key (pk_key cred) = Ok d
+    /\ resp = AuthResp pres ctr sg.
+Proof. exact u2f_authenticate_ok. Qed.
+
+Theorem c17_unknown_key_handle_fails : forall app chal kh ctr pres st dsc script,
+  (forall p, In p st -> pk_cred_id p = kh -> pk_rp_id p <> u2f_rp_id app) ->
+  exec (u2f_authenticate app chal kh ctr pres) st dsc script
+  = (st, [(EFind (Some [kh]) (u2f_rp_id app), AFind (Ok []))], Some (Err U2F_Other)).
+Proof. exact u2f_unknown_handle. Qed.
+
+Theorem c17_authenticate_never_mutates : forall app chal kh ctr pres script (ea : eff * answer),
+  In ea (fst (interp (u2f_authenticate app chal kh ctr pres) script)) ->
+  mutates (fst ea) = false /\ (forall c up uv, fst ea <> ECheckUser c up uv).
+Proof. exact u2f_authenticate_effects. Qed.
+
+(** "a signature that verifies": for every signature scheme whose signatures verify under the matching
+    public key ([verify_sign]) and every run whose key-generation and signing answers come from that
+    scheme ([honest]); the scheme itself (p256's ECDSA) is not modelled - the correspondence run verifies
+    the real signatures with independent P-256 arithmetic *)
+Theorem c17_registration_signature_verifies :
+  forall (pub_of : bytes -> bytes * bytes) (sign_with : bytes -> bytes -> bytes) (verify : bytes * bytes -> bytes -> bytes -> bool),
+  (forall d m, verify (pub_of d) m (sign_with d m) = true) ->
+  forall app chal h script tr resp,
+  interp (u2f_register app chal h) script = (tr, Some (Ok resp)) -> honest pub_of sign_with tr ->
+  verify (pk_x (rs_public_key resp), pk_y (rs_public_key resp))
+         ([0] ++ app ++ chal ++ h ++ [4] ++ pk_x (rs_public_key resp) ++ pk_y (rs_public_key resp))
+         (rs_signature resp) = true.
+Proof. exact u2f_register_signature_verifies. Qed.
+
+Theorem c17_later_authentication_verifies_under_the_same_key :
+  forall (pub_of : bytes -> bytes * bytes) (sign_with : bytes -> bytes -> bytes) (verify : bytes * bytes -> bytes -> bytes -> bool),
+  (forall d m, verify (pub_of d) m (sign_with d m) = true) ->
+  forall app chal h st dsc script st1 tr1 resp chal2 ctr pres script2 st2 tr2 resp2,
+  unique_ids st ->
+  exec (u2f_register app chal h) st dsc script = (st1, tr1, Some (Ok resp)) -> honest pub_of sign_with tr1 ->
+  exec (u2f_authenticate app chal2 h ctr pres) st1 dsc script2 = (st2, tr2, Some (Ok resp2)) -> honest pub_of sign_with tr2 ->
+  st2 = st1
+  /\ as_user_presence resp2 = pres /\ as_counter resp2 = ctr
+  /\ verify (pk_x (rs_public_key resp), pk_y (rs_public_key resp))
+            (app ++ [pres] ++ be32 ctr ++ chal2) (as_signature resp2) = true.
+Proof. exact u2f_round_trip_signature_verifies. Qed.
+
+(** the hypotheses are satisfiable: a registration followed by an authentication on an empty store *)
+Example c17_round_trip_example :
+  let app := repeat 7 32 in let chal := repeat 9 32 in let h := [1; 2; 3] in
+  exists st1 tr1 resp,
+    exec (u2f_register app chal h) [] Full [AKey [11] [12] [13]; ABytes [14]] = (st1, tr1, Some (Ok resp))
+    /\ snd (exec (u2f_authenticate app chal h 5 1) st1 Full [ABytes [15]]) = Some (Ok (AuthResp 1 5 [15])).
+Proof. vm_compute. eexists _, _, _. split; reflexivity. Qed.
+
 Print Assumptions c17_request_roundtrip.
 Print Assumptions c17_request_roundtrip_iso.
 Print Assumptions c17_version_roundtrip_iso.
@@ -171,3 +265,11 @@ Print Assumptions c17_register_parser_total.
 Print Assumptions c17_authenticate_parser_total_on_control_bytes.
 Print Assumptions c17_authenticate_parser_panic_class.
 Print Assumptions c17_authenticate_parser_panic_witness.
+Print Assumptions c17_register_ceremony.
+Print Assumptions c17_register_store_error_is_reported.
+Print Assumptions c17_register_stores_credential.
+Print Assumptions c17_authenticate_ceremony.
+Print Assumptions c17_unknown_key_handle_fails.
+Print Assumptions c17_authenticate_never_mutates.
+Print Assumptions c17_registration_signature_verifies.
+Print Assumptions c17_later_authentication_verifies_under_the_same_key.
